@@ -232,6 +232,7 @@ class SimBackend(object):
         self.solve_index = 0          # which Solver.solve() call we are in
         self.time_limit_seen = []
         self.fired = {}
+        self.busy = False
 
     # -- helpers ---------------------------------------------------------
     def _active_fault(self):
@@ -244,6 +245,18 @@ class SimBackend(object):
                 if best is None or k > best[0]:
                     best = (k, g)
         return best[1] if best else None
+
+    def _tl_stop_duration(self, tl):
+        """A solver stopped by its time limit returns shortly after it:
+        sometimes a fraction of a second, sometimes seconds later."""
+        x = self.drng.random()
+        if x < 0.5:
+            over = self.drng.uniform(0.08, 0.95)
+        elif x < 0.8:
+            over = self.drng.uniform(1.0, 5.0)
+        else:
+            over = 0.05 * float(tl) + 2.0
+        return float(tl) + over
 
     def _duration(self, tl):
         if self.durations:
@@ -270,8 +283,29 @@ class SimBackend(object):
                                   else (cur,)) + (pid,)
         return tuple(M)
 
+    @staticmethod
+    def _nondefault_solver_options(solver):
+        odd = []
+        if getattr(solver, 'mip', True) is not True:
+            odd.append('mip=%r' % getattr(solver, 'mip', None))
+        opts = getattr(solver, 'optionsDict', {}) or {}
+        for k in ('gapRel', 'gapAbs', 'maxNodes', 'presolve', 'cuts',
+                  'strong', 'warmStart'):
+            if opts.get(k) not in (None, False):
+                odd.append('%s=%r' % (k, opts.get(k)))
+        if getattr(solver, 'options', None):
+            odd.append('options=%r' % (solver.options,))
+        return odd
+
     # -- the seam --------------------------------------------------------
     def actual_solve(self, solver, lp, **kw):
+        self.busy = True
+        try:
+            return self._actual_solve(solver, lp, **kw)
+        finally:
+            self.busy = False
+
+    def _actual_solve(self, solver, lp, **kw):
         self.round += 1
         rnd = self.round
         tl = getattr(solver, 'timeLimit', None)
@@ -282,6 +316,13 @@ class SimBackend(object):
         fault = self._active_fault()
 
         if self.policy == 'real' and fault is None:
+            return self._real(solver, lp, rec, kw)
+        odd = self._nondefault_solver_options(solver)
+        if odd and fault is None:
+            # the repository asked the back end for something other than a
+            # plain exact MIP solve (relaxation, gap, node limit, extra
+            # options): the stand-in does not model that, real CBC decides
+            rec['solver_options'] = odd
             return self._real(solver, lp, rec, kw)
 
         ids, pairs, n1, trusted = self.pairs_provider(lp)
@@ -396,7 +437,7 @@ class SimBackend(object):
         if kind == 'tl-incumbent':
             if tl is None:
                 raise HarnessError('tl fault without time limit')
-            self.clock.advance(max(d, float(tl) * 1.05 + 2.0))
+            self.clock.advance(max(d, self._tl_stop_duration(tl)))
             if not sols:
                 lp.assignVarsVals(dict((v.name, 0.0) for v in C.vs))
                 lp.assignStatus(pulp.LpStatusInfeasible,
@@ -420,7 +461,7 @@ class SimBackend(object):
         if kind == 'tl-no-incumbent':
             if tl is None:
                 raise HarnessError('tl fault without time limit')
-            self.clock.advance(max(d, float(tl) * 1.05 + 2.0))
+            self.clock.advance(max(d, self._tl_stop_duration(tl)))
             name = 'Not Solved'
         else:
             self.clock.advance(d)
